@@ -317,6 +317,9 @@ def writer_model(facts, rep, R1, ser):
                     origin = (rest, a[1])
                     m["origin_line"] = t["line"]
                     m["origin_bb"] = bb
+    # a local that holds `x.len()` of a section that no longer changes stands for that length
+    if origin is not None:
+        origin = expand_len_locals(nv, origin)
     m["origin"] = origin
     # is the pointer table complete when the origin is computed?  find the definition block of the origin:
     # approximate with the loop head of the text loop – pushes reachable from there into ptr_section
